@@ -32,7 +32,7 @@ PROP = 'C18'
 patch.snapshot_process_state()
 LEVEL = 'model_checking'
 USES_FAKE_INTERPRETER = True
-FUNCS = [model_validator.compare_model,
+FUNCS = [quantizer_lib.Quantizer.validate, model_validator.compare_model,
          model_validator.ComparisonResult.add_new_signature_results,
          model_validator._setup_validation_interpreter,
          tfl_interpreter_utils.get_tensor_data,
@@ -196,8 +196,11 @@ def make_harness(ref_bytes, tgt_bytes, metric, n, prior_bytes=None):
         except Exception:  # pylint: disable=broad-except
           pass
       try:
-        result = model_validator.compare_model(
-            ref_bytes, tgt_bytes, lazy, metric, fn)
+        # through the public facade: Quantizer.validate() compares its float
+        # model with the model of its last quantization result
+        qv = quantizer_lib.Quantizer(ref_bytes, None)
+        qv._result = quantizer_lib.QuantizationResult([], tgt_bytes)
+        result = qv.validate(lazy, metric)
       except Inconclusive:
         raise
       except Exception as ex:  # pylint: disable=broad-except
@@ -527,7 +530,9 @@ def replay(c):
     except Exception:  # pylint: disable=broad-except
       pass
   try:
-    res = model_validator.compare_model(ref, tgt, data, d['metric'], fn)
+    qv = quantizer_lib.Quantizer(ref, None)
+    qv._result = quantizer_lib.QuantizationResult([], tgt)
+    res = qv.validate(data, d['metric'])
   except Exception as ex:  # pylint: disable=broad-except
     wc = ('partition by popping names raises when a tensor is both a '
           'signature input and output' if isinstance(ex, KeyError)
